@@ -29,7 +29,15 @@ def gen_cases(chk):
             ids = [f['id'] for f in feats]
             if len(set(ids)) != len(ids):
                 continue
-        ft, st, nt = G.feat_table(feats, version), G.sill_table(langs) if langs else b'', G.name_table(names, first_is_label=(i % 6 == 0))
+        mac_first = (i % 9 == 4)
+        if mac_first and i % 2 == 0 and not big:
+            # every label shares one name id: the Windows block of the name table is a single record, and it is not record 0
+            nid0 = min(names)
+            for f in feats:
+                f['nameid'] = nid0
+                f['settings'] = [(v, nid0) for v, _ in f['settings']]
+            names = {nid0: names[nid0]}
+        ft, st, nt = G.feat_table(feats, version), G.sill_table(langs) if langs else b'', G.name_table(names, first_is_label=(i % 6 == 0), mac_first=mac_first)
         for seq in range(4 if not big else 2):
             ops = []
             for _ in range(rng.randrange(3, 40 if thorough else 14)):
